@@ -16,6 +16,7 @@ import (
 	"errors"
 	"os"
 	"runtime"
+	"strings"
 	"sync"
 
 	dtpb "github.com/google/fhir/go/proto/google/fhir/proto/r4/core/datatypes_go_proto"
@@ -70,6 +71,14 @@ func (r *recorder) call(fn string, in system.Collection, args ...any) (system.Co
 		return system.Collection{system.String("ret"), system.Integer(42)}, nil
 	case "echo":
 		return in, nil
+	case "first", "last":
+		if len(args) == 0 {
+			return system.Collection{system.Integer(len(in))}, nil
+		}
+		if r.ret == "first" {
+			return system.Collection{args[0]}, nil
+		}
+		return system.Collection{args[len(args)-1]}, nil
 	case "empty":
 		return system.Collection{}, nil
 	case "err":
@@ -158,14 +167,24 @@ func shape(id string, mr1, mr4 *ppb.Patient) any {
 		return 5
 	case "nilTop":
 		return nil
+	case "tnilTop":
+		return (*ppb.Patient)(nil)
 	}
-	// generated shapes "bad-<path>" / "nil-<path>": the offending leaf First, in
+	// generated shapes "bad-<path>" / "nil-<path>" / "tnil-<path>": the offending leaf First, in
 	// the Middle or Last among two valid siblings at every nesting level
 	// (outermost level first), see spec/C17.tla Build.
-	if len(id) > 4 && (id[:4] == "bad-" || id[:4] == "nil-") {
-		path := id[4:]
+	if i := strings.IndexByte(id, '-'); i > 0 && (id[:i] == "bad" || id[:i] == "nil" || id[:i] == "tnil") {
+		path := id[i+1:]
 		var v any
-		if id[:3] == "bad" {
+		if id[:i] == "tnil" {
+			// a typed nil pointer of an element / resource type
+			if len(path)%2 == 1 {
+				v = (*dtpb.String)(nil)
+			} else {
+				v = (*ppb.Patient)(nil)
+			}
+		}
+		if id[:i] == "bad" {
 			if len(path)%2 == 1 {
 				v = 5
 			} else {
